@@ -114,7 +114,7 @@ def _names(spec):
 
 
 def specs(tier: str):
-    return families.c01_specs(tier, kmode="all", extra_sigma="\né", max_inputs=40 if tier == "quick" else 160, extra_trivia=("cm_pred",))
+    return families.c01_specs(tier, kmode="all", extra_sigma="\né", max_inputs=45 if tier == "quick" else 160, extra_trivia=("cm_pred",), sigma_core="aA")
 
 
 def run(tier: str) -> int:
@@ -122,7 +122,7 @@ def run(tier: str) -> int:
     return gc.run_model_check(
         C13(), specs(tier), tier, "exploration",
         bounds=[{"top": [{"n": n, "modifiers": list(m), "trivia": list(t)} for n, m, t in b["top"]], "contexts": [{"hole_size": h, "trivia": list(t)} for h, t in b["ctx"]],
-                 "alphabet": "a b A + trivia symbols + newline + é", "start_positions": "every k in 0..len(text)"}],
+                 "alphabet": "a A + trivia symbols + newline + é", "start_positions": "every k in 0..len(text)"}],
         rule=families.c01_rule_text() + "; input alphabet extended by '\\n' and 'é' (multi-line, non-ASCII), every start position. Oracle on every rejected (grammar, input, start_pos) in four modes: "
              "furthest_pos == -1 or start_pos <= furthest_pos <= len; keys of furthest_expected/unexpected are rules of the grammar or built-ins and labels are strings; str(), detailed_message(), expected(), expected_labels() do not raise; "
              "for furthest_pos >= 0 the L:C in the message and error_context() equal (1 + newlines before p, 1 + distance from the last newline) and the source line shown is line L (up to trailing whitespace). "
